@@ -360,3 +360,38 @@ func DCMICaps(p int, d []byte) (Fields, bool, error) {
 	}
 	return f, reserved, nil
 }
+
+// LANMessage: 13.8 IPMI LAN message (request and response forms), with the
+// defining body code of group-extension network functions (2Ch/2Dh) and the
+// IANA enterprise number of OEM/group ones (2Eh/2Fh). Neither extension exists
+// for other network functions, so both read as zero there.
+func LANMessage(d []byte) (Fields, bool, error) {
+	m, err := ParseMsg(d)
+	if err != nil {
+		return nil, false, err
+	}
+	f := Fields{"RemoteAddress": m.Addr1, "Function": m.NetFn, "RemoteLUN": m.LUN1, "Checksum1": m.Ck1,
+		"LocalAddress": m.Addr2, "Sequence": m.Seq, "LocalLUN": m.LUN2, "Command": m.Cmd, "Checksum2": m.Ck2,
+		"Body": byte(0), "Enterprise": uint32(0), "CompletionCode": byte(0)}
+	data := m.Data
+	if m.NetFn&1 == 1 {
+		if len(data) < 1 {
+			return nil, false, fmt.Errorf("response without completion code")
+		}
+		f["CompletionCode"] = data[0]
+		data = data[1:]
+	}
+	switch m.NetFn &^ 1 {
+	case 0x2c:
+		if len(data) < 1 {
+			return nil, false, fmt.Errorf("group extension without body code")
+		}
+		f["Body"] = data[0]
+	case 0x2e:
+		if len(data) < 3 {
+			return nil, false, fmt.Errorf("OEM/group without enterprise number")
+		}
+		f["Enterprise"] = uint32(data[0]) | uint32(data[1])<<8 | uint32(data[2])<<16
+	}
+	return f, false, nil
+}
